@@ -53,11 +53,11 @@ from math import ceil, floor
 from random import Random
 from typing import NamedTuple
 
+from solvor import _verif
 from solvor.lns import lns as _lns
 from solvor.simplex import Status as LPStatus
 from solvor.simplex import solve_lp
 from solvor.types import Result, Status
-from solvor import _verif
 from solvor.utils import check_integers_valid, check_matrix_dims, warn_large_coefficients
 
 __all__ = ["solve_milp"]
@@ -187,7 +187,9 @@ def solve_milp(
         # Prune if can't improve
         if best_solution is not None and node_bound >= sign * best_obj - eps:
             if _verif.ENABLED:  # pragma: no cover
-                _verif.emit("milp_node", act="prune_bound", lower=list(node.lower), upper=list(node.upper), bound=node_bound)
+                _verif.emit(
+                    "milp_node", act="prune_bound", lower=list(node.lower), upper=list(node.upper), bound=node_bound
+                )
             continue
 
         result = _solve_node(c, A, b, node.lower, node.upper, minimize, eps, max_iter)
@@ -222,7 +224,12 @@ def solve_milp(
             sol_obj = result.objective
             if _verif.ENABLED:  # pragma: no cover
                 _verif.emit(
-                    "milp_node", act="integral", lower=list(node.lower), upper=list(node.upper), x=list(sol), obj=sol_obj
+                    "milp_node",
+                    act="integral",
+                    lower=list(node.lower),
+                    upper=list(node.upper),
+                    x=list(sol),
+                    obj=sol_obj,
                 )
 
             # Collect solution if within limit
